@@ -10,6 +10,21 @@ NOT_APPLICABLE = {
 }
 
 PLAN = {
+    "C06": dict(
+        verus=[], kani=["slots"], level="proof",
+        claim="poll decision table + drop, all states",
+        note="wip",
+    ),
+    "C01": dict(
+        verus=[], kani=["slots", "wkc"], level="proof",
+        claim="first_pdu / trim_front / wkc on real pointers",
+        note="wip",
+    ),
+    "C02": dict(
+        verus=[], kani=["slots"], level="proof",
+        claim="per-operation contracts of the slot protocol on the real slot (Kani, all 8 states, loop-free)",
+        note="interleaving + memory-model assumption; protocol lemma pending",
+    ),
     "C19": dict(
         verus=[], kani=["@wire"], level="translation_validation",
         claim="every #[derive(EtherCrabWire*)] type in /repo/src: the derive OUTPUT is validated against a layout computed independently from the "
